@@ -651,6 +651,12 @@ func (s *zzSim) step() {
 		s.midCuts++
 		s.lastMidCutStep = s.stepNo
 		s.faultCut(mc)
+		// one such disconnect in three lasts: the peer stays away for longer
+		// than the mailbox keeps an undelivered add (drawn last in the step)
+		if !s.nodes[zzB].kv.Fenced() && s.netIdle() && r.Draw(3) == 2 {
+			r.Count("fault_cut_inside_write_then_long_absence")
+			s.faultLongTime()
+		}
 		return
 	}
 
